@@ -108,8 +108,24 @@ class PathRecord:
         self.readback = []   # (addr int, loc term, value term, transient)
         self.balance = ex.balance
         self.code = {}
+        self.logs = []       # (address, [topics], data, nbytes) of the frames whose effects persist, in order
         if self.kind == "ok":
             self._read_back(scn)
+            self._collect_logs(ex.context)
+
+    def _collect_logs(self, ctx):
+        """event logs in execution order; a frame that failed takes its logs (and those of its
+        sub-frames) with it, like every other effect"""
+        from halmos.sevm import CallContext, EventLog
+
+        for t in ctx.trace:
+            if isinstance(t, EventLog):
+                data = t.data
+                n = len(data) if data is not None else 0
+                raw = (data.unwrap() if hasattr(data, "unwrap") else data) if n else b""
+                self.logs.append((t.address, list(t.topics), raw, n))
+            elif isinstance(t, CallContext) and t.output.error is None and t.output.data is not None:
+                self._collect_logs(t)
 
     def _writes(self, ctx, out):
         from halmos.sevm import CallContext, StorageWrite
@@ -187,6 +203,13 @@ class PathRecord:
         """end state under the valuation"""
         ev.define_arrays(self.all_conditions[len(self.conditions):])
         obs = {"storage": [], "balance": {}, "code": {}}
+
+        def val(x):
+            x = x.as_z3() if hasattr(x, "as_z3") else x
+            return x if isinstance(x, int) else ev.ev(x)
+
+        obs["logs"] = [(val(a), tuple(val(t) for t in topics), raw if isinstance(raw, bytes) else val(raw).to_bytes(n, "big"))
+                       for a, topics, raw, n in self.logs]
         for a, loc, v, transient in self.readback:
             flat = ev.ev(loc)
             val = ev.ev(v) if not isinstance(v, Exception) else f"EXC {type(v).__name__}: {v}"
